@@ -143,8 +143,8 @@ theorem readAtoms_written {length : Nat} : ∀ (as : List Bytes) (rest : Bytes) 
     simp
 
 /-- a group as the serializer writes it: non-empty, uniform non-zero length within the bounds -/
-def GroupOK (mal allocCap : Nat) (g : Nat × List Bytes) : Prop :=
-  g.2 ≠ [] ∧ (∀ a ∈ g.2, a.length = g.1) ∧ 1 ≤ g.1 ∧ g.1 ≤ mal ∧ g.1 ≤ allocCap
+def GroupOK (mal : Nat) (g : Nat × List Bytes) : Prop :=
+  g.2 ≠ [] ∧ (∀ a ∈ g.2, a.length = g.1) ∧ 1 ≤ g.1 ∧ g.1 ≤ mal
 
 def groupBytes (groups : List (Nat × List Bytes)) : Nat := (groups.map fun g => g.1 * g.2.length).sum
 def groupAtomCount (groups : List (Nat × List Bytes)) : Nat := (groups.map fun g => g.2.length).sum
@@ -167,11 +167,11 @@ theorem checkedBoundedUsize_nat (n m : Nat) (h : n ≤ m) : checkedBoundedUsize 
   rw [if_neg (by omega)]
 
 /-- the decoder reads back a written atom table -/
-theorem readGroups_written {allocCap mal : Nat} {strict : Bool} :
+theorem readGroups_written {mal : Nat} {strict : Bool} :
     ∀ (groups : List (Nat × List Bytes)) (bs rest : Bytes) (ctr : Counters) (acc : List Bytes),
-    (∀ g ∈ groups, GroupOK mal allocCap g) → writeGroups groups = .ok bs →
+    (∀ g ∈ groups, GroupOK mal g) → writeGroups groups = .ok bs →
     Room ctr (groupBytes groups) (groupAtomCount groups) →
-    readGroups allocCap mal strict groups.length (bs ++ rest) ctr acc =
+    readGroups mal strict groups.length (bs ++ rest) ctr acc =
       .ok (rest, bumpAtoms ctr (groupBytes groups) (groupAtomCount groups), acc ++ groups.flatMap (·.2)) := by
   intro groups
   induction groups with
@@ -182,9 +182,9 @@ theorem readGroups_written {allocCap mal : Nat} {strict : Bool} :
   | cons g tl ih =>
     intro bs rest ctr acc hok h hroom
     obtain ⟨length, as⟩ := g
-    obtain ⟨hne, hlen, h1, hmal, hcap⟩ := hok (length, as) (by simp)
-    simp only at hne hlen h1 hmal hcap
-    have hoktl : ∀ g ∈ tl, GroupOK mal allocCap g := fun g hg => hok g (by simp [hg])
+    obtain ⟨hne, hlen, h1, hmal⟩ := hok (length, as) (by simp)
+    simp only at hne hlen h1 hmal
+    have hoktl : ∀ g ∈ tl, GroupOK mal g := fun g hg => hok g (by simp [hg])
     obtain ⟨r1, r2⟩ := hroom
     rw [groupBytes_cons] at r1
     rw [groupAtomCount_cons] at r2
@@ -276,7 +276,6 @@ theorem readGroups_written {allocCap mal : Nat} {strict : Bool} :
     simp only [List.length_cons, List.append_assoc]
     rw [readGroups, hread]
     simp only [hz, Bool.false_eq_true, if_false]
-    rw [if_neg (by omega)]
     rw [readAtoms_written as (t ++ rest) ctr acc hlen hroomA]
     simp only
     rw [ih t rest _ (acc ++ as) hoktl ht hroomT, bumpAtoms_bumpAtoms, groupBytes_cons, groupAtomCount_cons]
@@ -293,13 +292,13 @@ def finish (rest : Bytes) (s : DState) : Except Err (Tree × Bytes × Counters) 
 /-- **the decoder inverts the writer at the wire level** (strict and lenient): on a body written from a
 group list and an instruction list it returns what executing the instruction list over the table's
 atoms returns, and leaves exactly the trailing bytes. -/
-theorem deserialize_written (allocCap mal : Nat) (strict : Bool) (ctr : Counters) (rest : Bytes)
+theorem deserialize_written (mal : Nat) (strict : Bool) (ctr : Counters) (rest : Bytes)
     (groups : List (Nat × List Bytes)) (is : List Int) (cg tbl ci ib : Bytes)
-    (hok : ∀ g ∈ groups, GroupOK mal allocCap g)
+    (hok : ∀ g ∈ groups, GroupOK mal g)
     (h1 : wv (groups.length : Int) = .ok cg) (h2 : writeGroups groups = .ok tbl)
     (h3 : wv (is.length : Int) = .ok ci) (h4 : writeInstructions is = .ok ib) (hne : is ≠ [])
     (hroom : Room ctr (groupBytes groups) (groupAtomCount groups)) :
-    deserializeFromStream allocCap ctr (magic ++ (cg ++ tbl ++ ci ++ ib) ++ rest) mal strict =
+    deserializeFromStream ctr (magic ++ (cg ++ tbl ++ ci ++ ib) ++ rest) mal strict =
       match execList (groups.flatMap (·.2)) is
           { ctr := bumpAtoms ctr (groupBytes groups) (groupAtomCount groups), pairs := [], stack := [] } with
       | .error e => .error e
@@ -316,7 +315,7 @@ theorem deserialize_written (allocCap mal : Nat) (strict : Bool) (ctr : Counters
   simp only
   rw [checkedUsize_nat]
   simp only
-  have hg := readGroups_written (allocCap := allocCap) (mal := mal) (strict := strict) groups tbl
+  have hg := readGroups_written (mal := mal) (strict := strict) groups tbl
     (ci ++ (ib ++ rest)) ctr [] hok h2 hroom
   rw [hg]
   simp only
